@@ -152,6 +152,7 @@ pub fn digest_one(h: &History) -> (u64, u64) {
 /// `lsv digest`: prints one line per history: index, value digest, event digest
 pub fn digest_command(seed: u64, count: usize, out: &str, dump: Option<usize>) -> i32 {
     shadow::install();
+    let _ = crate::statics::pool();
     let hs = digest_histories(seed, count);
     if let Some(i) = dump {
         println!("{}", history_value(&hs[i]));
